@@ -35,6 +35,7 @@ func init() {
 			}()),
 			ruleLineExtractor("C11.extract"),
 			ruleSegIntersectMirror("C11.mirror.seg"),
+			ruleLineScanStart("C11.start"),
 		},
 	})
 }
